@@ -548,3 +548,40 @@ func VH_C04_dispatch_curved_closed() {
 		vAssert("C04.curved.open_one_closed_side", rhs != nil && lhs == nil && rhs.Closed())
 	}
 }
+
+// C04: the offset of an elliptical arc is made of arcs whose radii are the original radii plus
+// and minus the half width (the library's approximation of an ellipse offset), for rotated and
+// unrotated, wide and tall ellipses.  Concrete arcs (half ellipses), concrete half width.
+func VH_C04_offset_arc_radii() {
+	type arc struct{ rx, ry, rot float64 }
+	a := []arc{{6, 3, 0}, {6, 3, 30}, {3, 6, 0}, {6, 3, 120}, {5, 5, 0}}[vChoose(0, 4)]
+	hw := 0.5
+	phi := a.rot * math.Pi / 180
+	// half ellipse from the point at angle 0 to the point at angle pi
+	sx, sy := a.rx*math.Cos(phi), a.rx*math.Sin(phi)
+	p := &Path{}
+	p.MoveTo(sx, sy)
+	p.ArcTo(a.rx, a.ry, a.rot, false, true, -sx, -sy)
+	rec := &vhC04Rec{}
+	rhs, _ := p.offset(hw, vhC04Capper{rec}, vhC04PlainJoiner{rec}, true, 0.01)
+	rmax, rmin := math.Max(a.rx, a.ry), math.Min(a.rx, a.ry)
+	outer, inner := false, false
+	ok := rhs != nil
+	if ok {
+		for i := 0; i < len(rhs.d); i += cmdLen(rhs.d[i]) {
+			if rhs.d[i] == ArcToCmd {
+				rx, ry := rhs.d[i+1], rhs.d[i+2]
+				if vhNear6(rx, rmax+hw) && vhNear6(ry, rmin+hw) {
+					outer = true
+				} else if vhNear6(rx, rmax-hw) && vhNear6(ry, rmin-hw) {
+					inner = true
+				} else {
+					ok = false
+				}
+			}
+		}
+	}
+	vAssert("C04.arcoffset.radii_are_original_plus_minus_half_width", ok && outer && inner)
+}
+
+func vhNear6(a, b float64) bool { return math.Abs(a-b) <= 1e-6 }
